@@ -610,6 +610,298 @@ def gen_config():
     return "\n".join(lines) + "\n", summ
 
 
+# --------------------------------------------------------------------------
+# write effects of the compile / evaluate paths (C17)
+# --------------------------------------------------------------------------
+
+MUTATORS = {"append", "extend", "insert", "pop", "remove", "clear", "add", "update", "discard", "setdefault", "popitem",
+            "sort", "reverse", "__setitem__", "__delitem__", "appendleft", "popleft"}
+
+
+class EffectVisitor(ast.NodeVisitor):
+    """Conservative syntactic classification of every write a function performs.
+    kinds: local | nonlocal | self-attr | fresh-object | param-object | global | class-attr | module-attr | unknown"""
+
+    def __init__(self, fname, fn, module_names, enclosing_locals=()):
+        self.fname = fname
+        self.effects = []
+        self.module_names = module_names
+        self.params = {a.arg for a in fn.args.args + fn.args.kwonlyargs + fn.args.posonlyargs}
+        if fn.args.vararg:
+            self.params.add(fn.args.vararg.arg)
+        if fn.args.kwarg:
+            self.params.add(fn.args.kwarg.arg)
+        self.globals_decl, self.nonlocals_decl = set(), set()
+        self.assigned, self.fresh = set(), set()
+        self.enclosing = set(enclosing_locals)
+        self.fn = fn
+        for node in ast.walk(fn):
+            if isinstance(node, ast.Global):
+                self.globals_decl.update(node.names)
+            elif isinstance(node, ast.Nonlocal):
+                self.nonlocals_decl.update(node.names)
+        for node in self._own_nodes(fn):
+            if isinstance(node, (ast.Assign, ast.AnnAssign, ast.AugAssign)):
+                tgs = node.targets if isinstance(node, ast.Assign) else [node.target]
+                for tg in tgs:
+                    for n in ast.walk(tg):
+                        if isinstance(n, ast.Name) and isinstance(n.ctx, ast.Store):
+                            self.assigned.add(n.id)
+                            v = getattr(node, "value", None)
+                            if isinstance(v, (ast.Call, ast.List, ast.Dict, ast.Set, ast.ListComp, ast.DictComp, ast.SetComp, ast.Tuple)):
+                                self.fresh.add(n.id)
+            elif isinstance(node, (ast.For, ast.comprehension)):
+                for n in ast.walk(node.target):
+                    if isinstance(n, ast.Name):
+                        self.assigned.add(n.id)
+            elif isinstance(node, (ast.With,)):
+                for it in node.items:
+                    if it.optional_vars is not None:
+                        for n in ast.walk(it.optional_vars):
+                            if isinstance(n, ast.Name):
+                                self.assigned.add(n.id)
+
+    def _own_nodes(self, fn):
+        """nodes of fn, not descending into nested function definitions"""
+        todo = list(fn.body)
+        while todo:
+            n = todo.pop()
+            yield n
+            for c in ast.iter_child_nodes(n):
+                if not isinstance(c, (ast.FunctionDef, ast.AsyncFunctionDef, ast.Lambda, ast.ClassDef)):
+                    todo.append(c)
+
+    def base_kind(self, node):
+        """classify the object a write goes through"""
+        if isinstance(node, ast.Name):
+            n = node.id
+            if n == "self":
+                return "self-attr"
+            if n in ("cls",):
+                return "class-attr"
+            if n in self.globals_decl:
+                return "global"
+            if n in self.nonlocals_decl:
+                return "nonlocal"
+            if n in self.assigned and n not in self.params:
+                return "fresh-object" if n in self.fresh else "local-object"
+            if n in self.params:
+                return "param-object"
+            if n in self.enclosing:
+                return "nonlocal"
+            if n in self.module_names:
+                return "module-attr"
+            return "unknown"
+        if isinstance(node, ast.Attribute):
+            b = self.base_kind(node.value)
+            return b
+        if isinstance(node, ast.Subscript):
+            return self.base_kind(node.value)
+        if isinstance(node, ast.Call):
+            f = node.func
+            if isinstance(f, ast.Name) and f.id == "type":
+                return "class-attr"
+            return "fresh-object"
+        return "unknown"
+
+    def record(self, kind, target):
+        self.effects.append((self.fname, kind, target))
+
+    def write_target(self, tg):
+        if isinstance(tg, ast.Name):
+            n = tg.id
+            if n in self.globals_decl:
+                self.record("global", n)
+            elif n in self.nonlocals_decl:
+                self.record("nonlocal", n)
+            else:
+                self.record("local", n)
+        elif isinstance(tg, ast.Attribute):
+            self.record(self.base_kind(tg.value), ast.unparse(tg)[:60])
+        elif isinstance(tg, ast.Subscript):
+            self.record(self.base_kind(tg.value), ast.unparse(tg)[:60])
+        elif isinstance(tg, (ast.Tuple, ast.List)):
+            for e in tg.elts:
+                self.write_target(e)
+        elif isinstance(tg, ast.Starred):
+            self.write_target(tg.value)
+        else:
+            self.record("unknown", ast.unparse(tg)[:60])
+
+    def run(self):
+        for node in self._own_nodes(self.fn):
+            if isinstance(node, ast.Assign):
+                for tg in node.targets:
+                    self.write_target(tg)
+            elif isinstance(node, (ast.AugAssign, ast.AnnAssign)):
+                if not (isinstance(node, ast.AnnAssign) and node.value is None):
+                    self.write_target(node.target)
+            elif isinstance(node, ast.Delete):
+                for tg in node.targets:
+                    self.write_target(tg)
+            elif isinstance(node, ast.Call):
+                f = node.func
+                if isinstance(f, ast.Attribute) and f.attr in MUTATORS:
+                    self.record(self.base_kind(f.value), ast.unparse(f)[:60])
+                elif isinstance(f, ast.Name) and f.id in ("setattr", "delattr") and node.args:
+                    self.record(self.base_kind(node.args[0]), ast.unparse(node)[:60])
+        return self.effects
+
+
+def function_effects(qualname, func, module):
+    try:
+        src = textwrap.dedent(inspect.getsource(func))
+        tree = ast.parse(src)
+    except Exception as ex:  # noqa
+        return [(qualname, "unknown", "nosource:" + type(ex).__name__)]
+    fn = tree.body[0]
+    if not isinstance(fn, (ast.FunctionDef, ast.AsyncFunctionDef)):
+        return [(qualname, "unknown", "not-a-function")]
+    module_names = set(vars(module)) if module else set()
+    out = []
+
+    def visit(f, name, enclosing):
+        v = EffectVisitor(name, f, module_names, enclosing)
+        out.extend(v.run())
+        inner_enclosing = set(enclosing) | v.assigned | v.params
+        for node in v._own_nodes(f):
+            for c in ast.iter_child_nodes(node):
+                if isinstance(c, (ast.FunctionDef, ast.AsyncFunctionDef)):
+                    visit(c, name + "." + c.name, inner_enclosing)
+        for c in f.body:
+            if isinstance(c, (ast.FunctionDef, ast.AsyncFunctionDef)):
+                visit(c, name + "." + c.name, inner_enclosing)
+
+    visit(fn, qualname, ())
+    # de-duplicate (a nested def may be reached twice)
+    seen, res = set(), []
+    for e in out:
+        if e not in seen:
+            seen.add(e)
+            res.append(e)
+    return res
+
+
+def gen_effects():
+    import sys as _sys
+    from pyab_experiment.language import lexer as lexmod, grammar as grammod
+    from pyab_experiment.sly import lex as slylex, yacc as slyyacc
+    from pyab_experiment.codegen.python import python_generator as genmod
+    from pyab_experiment import experiment_evaluator as evmod
+    from pyab_experiment.utils import wraper_functions as wrapmod
+    from pyab_experiment.binning import binning as binmod
+
+    targets = []
+
+    def methods(cls, module, only=None):
+        for name, val in vars(cls).items():
+            f = val
+            if isinstance(f, (staticmethod, classmethod)):
+                f = f.__func__
+            if isinstance(f, property):
+                f = f.fget
+            if inspect.isfunction(f) and (only is None or name in only):
+                targets.append((f"{cls.__name__}.{name}", f, module))
+
+    targets.append(("parse_source", wrapmod.parse_source, wrapmod))
+    methods(lexmod.ExperimentLexer, lexmod)
+    for n, c in vars(lexmod).items():
+        if isinstance(c, slylex.LexerMeta) and c is not lexmod.ExperimentLexer and c.__module__ == lexmod.__name__:
+            methods(c, lexmod)
+    methods(slylex.Lexer, slylex, only={"tokenize", "begin", "push_state", "pop_state", "error"})
+    methods(slyyacc.Parser, slyyacc, only={"parse", "restart", "error", "errok", "line_position", "index_position"})
+    methods(grammod.ExperimentParser, grammod)
+    methods(genmod.PythonCodeGen, genmod)
+    methods(evmod.ExperimentEvaluator, evmod, only={"__init__", "recompile", "__call__"})
+    targets.append(("deterministic_proba", binmod.deterministic_proba, binmod))
+    targets.append(("deterministic_choice", binmod.deterministic_choice, binmod))
+
+    effects = []
+    for qn, f, mod in targets:
+        effects.extend(function_effects(qn, f, mod))
+
+    # (i) fresh lexer / parser per parse_source call
+    fresh_lexer = fresh_parser = False
+    try:
+        fn = ast.parse(textwrap.dedent(inspect.getsource(wrapmod.parse_source))).body[0]
+        local_ctor = {}
+        for node in ast.walk(fn):
+            if isinstance(node, ast.Assign) and len(node.targets) == 1 and isinstance(node.targets[0], ast.Name) \
+                    and isinstance(node.value, ast.Call) and isinstance(node.value.func, ast.Name):
+                local_ctor[node.targets[0].id] = node.value.func.id
+        for node in ast.walk(fn):
+            if isinstance(node, ast.Call) and isinstance(node.func, ast.Attribute) and isinstance(node.func.value, ast.Name):
+                base = node.func.value.id
+                if node.func.attr == "tokenize" and local_ctor.get(base) == "ExperimentLexer":
+                    fresh_lexer = True
+                if node.func.attr == "parse" and local_ctor.get(base) == "ExperimentParser":
+                    fresh_parser = True
+        # a decorator (cache) on parse_source defeats the per-call allocation
+        if fn.decorator_list:
+            fresh_lexer = fresh_parser = False
+    except Exception:  # noqa
+        pass
+    # is parse_source still a plain function (not wrapped by a cache)?
+    if not inspect.isfunction(wrapmod.parse_source):
+        fresh_lexer = fresh_parser = False
+
+    # (iv) recompile publishes with exactly one store, after the new code is built
+    publish_writes, publish_after_build = 0, False
+    try:
+        fn = ast.parse(textwrap.dedent(inspect.getsource(evmod.ExperimentEvaluator.recompile))).body[0]
+        order = []
+        for node in ast.walk(fn):
+            if isinstance(node, ast.Call) and isinstance(node.func, ast.Name):
+                if node.func.id == "setattr" and len(node.args) >= 2 and isinstance(node.args[1], ast.Constant) \
+                        and node.args[1].value == "run_experiment":
+                    order.append(("publish", node.lineno))
+                if node.func.id in ("exec", "compile"):
+                    order.append(("build", node.lineno))
+            if isinstance(node, ast.Assign):
+                for tg in node.targets:
+                    if isinstance(tg, ast.Attribute) and tg.attr == "run_experiment":
+                        order.append(("publish", node.lineno))
+        pubs = [l for k, l in order if k == "publish"]
+        builds = [l for k, l in order if k == "build"]
+        publish_writes = len(pubs)
+        publish_after_build = bool(pubs and builds and min(pubs) > max(builds))
+    except Exception:  # noqa
+        pass
+    # the generator object and code_holder are per call
+    gen_fresh = any(e[0] == "ExperimentEvaluator.recompile" and e[1] == "local" and e[2] == "code_holder" for e in effects)
+
+    b = lambda x: "true" if x else "false"
+    lines = [
+        "/- GENERATED by tools/translate.py from /repo — do not edit -/",
+        "namespace Pyab.Generated",
+        "",
+        "/-- one syntactic write effect: (function, kind, target) -/",
+        "structure Effect where",
+        "  fn : String",
+        "  kind : String",
+        "  target : String",
+        "deriving Repr, DecidableEq",
+        "",
+        "def effects : List Effect := [",
+        ",\n".join("  ⟨%s, %s, %s⟩" % (lstr(a), lstr(k), lstr(t)) for a, k, t in effects),
+        "]",
+        "",
+        "def freshLexerPerCall : Bool := %s" % b(fresh_lexer),
+        "def freshParserPerCall : Bool := %s" % b(fresh_parser),
+        "def codeHolderIsLocal : Bool := %s" % b(gen_fresh),
+        "def publishWrites : Nat := %d" % publish_writes,
+        "def publishAfterBuild : Bool := %s" % b(publish_after_build),
+        "",
+        "end Pyab.Generated",
+    ]
+    kinds = {}
+    for _, k, _ in effects:
+        kinds[k] = kinds.get(k, 0) + 1
+    return "\n".join(lines) + "\n", {"functions": len(targets), "effects": len(effects), "kinds": kinds,
+                                      "freshLexerPerCall": fresh_lexer, "freshParserPerCall": fresh_parser,
+                                      "publishWrites": publish_writes, "publishAfterBuild": publish_after_build}
+
+
 def gen_pipeline():
     lines = [
         "/- GENERATED by tools/translate.py — do not edit -/",
@@ -649,6 +941,7 @@ GENERATORS = [
     ("LRTables", gen_lrtables),
     ("Config", gen_config),
     ("Pipeline", gen_pipeline),
+    ("Effects", gen_effects),
 ]
 
 if __name__ == "__main__":
